@@ -193,6 +193,11 @@ func c04Impl(in []int64) []int64 {
 		// from two empty heaps ordered by c04cmp in every variant): 1 = made by New with the REVERSED comparator, used,
 		// then Init(nil, c04cmp); 2 = zero value, then Init; 3 = as 1 with a non-empty Init under the reversed
 		// comparator in between.  What the heap does must depend on the comparator of its last Init only.
+		if len(init) > 0 && init[0] >= 4 && init[0] <= 6 { // 4..6: New with a large capacity hint (4096, 1028, 300)
+			for h := range hs {
+				hs[h] = heapz.New[int64]([]int{4096, 1028, 300}[init[0]-4], c04cmp)
+			}
+		}
 		if len(init) > 0 && init[0] >= 1 && init[0] <= 3 {
 			rev := func(a, b int64) bool { return c04cmp(b, a) }
 			for h := range hs {
@@ -654,11 +659,18 @@ func c04Gen(c *Ctx) {
 		switch i % 3 {
 		case 0: // Heap with handles
 			in := []int64{1, 0}
+			nops := 4 + r.Intn(30)
+			if i%300 == 0 { // hundreds of elements in a heap made with a large capacity hint (size-dependent policies)
+				n0 = 257 + r.Intn(90)
+				nops = 3 + r.Intn(6)
+				in = []int64{1, 1, int64(4 + r.Intn(3))}
+				t.C.Count("heap-earlier-life", "New(large capacity hint), 257+ elements")
+			}
 			for j := 0; j < n0; j++ {
 				in = append(in, 0, 0, int64(r.Intn(100)))
 			}
 			nh := n0
-			for j := 4 + r.Intn(30); j > 0; j-- {
+			for j := nops; j > 0; j-- {
 				x := r.Intn(100)
 				switch {
 				case x < 55:
@@ -743,7 +755,7 @@ func c04Gen(c *Ctx) {
 }
 
 func init() {
-	Register(&Prop{ID: "C04", Num: 4, SpecMode: "rel", Gen: c04Gen, Impl: c04Impl,
+	Register(&Prop{ID: "C04", Pure: true, JudgeLimit: 600, Num: 4, SpecMode: "rel", Gen: c04Gen, Impl: c04Impl,
 		Shrink: c04Shrink, Describe: c04Describe,
 		Rule: "values v*1000+id with v in 0..4 compared on v only (ties everywhere). exhaustive: every op sequence up to the tier's length over boundary alphabets (Push/Pop/Peek/Remove/Fix/SetFix/ReInit/PopAll, indices -1..9; for Heap: two heaps, live/stale/foreign/unknown handles, PushElement, Init) from several initial heaps; random: 3-60 ops, Slice / generic functions / Heap handles; deep heaps (12-60 elements over keys 0..99, Remove/Fix/SetFix at inner positions, drain); generic functions outside their contract (wild index, Pop on empty: panics must agree with the model); Heap index field overwritten (panic branch). Compared exactly after every op: results, Slice.Values / container, Index() of every handle. distinct = distinct case; non-trivial = at least 3 (exhaustive: 2) operations of at least 2 kinds"})
 }
